@@ -1171,7 +1171,7 @@ def _run(ctx):
         for j, (pos, nb) in enumerate(alts):
             kinds = ['b', 'a']
             # device path: every alteration of an info-area length byte, a sample of the others
-            if cov[pos] == '2' or (cov[pos] == '1' and (j % (9 if quick else 5) == 0)):
+            if cov[pos] == '2' or (cov[pos] == '1' and j % 9 == 0):
                 kinds.append('dev')
                 n_dev += 1
             plan.append((pos, nb, kinds))
@@ -1318,7 +1318,7 @@ def search(ctx):
     failing input.  When the Lean obligations still check, a disagreement on a VALID image is
     promoted: the intended model is proved to report the view, so the code differs from it."""
     for d in ctx.disagreements:
-        if d['what'] == 'parse-valid':
+        if d['what'] in ('parse-valid', 'parse-valid-device'):
             d['explained_by'] = 'parse-encode violations reported by the property oracle'
         if d['what'] == 'parse-altered' and d['model'].startswith('ok ') != d['code'].startswith('ok '):
             ctx.notes.append('acceptance differs between code and model on an altered image: %s' % d['case'])
